@@ -73,12 +73,43 @@ class MissingPairs(object):
             nl, nr = rng.randint(0, 5), rng.randint(0, 5)
             pm = rng.choice([0.0, 0.3, 0.6, 1.0])
             mk = lambda: None if rng.random() < pm else rng.choice(['a b', 'c', '', 'a'])
-            yield dict(l=[mk() for _ in range(nl)], r=[mk() for _ in range(nr)], score=rng.random() < 0.5)
+            yield dict(l=[mk() for _ in range(nl)], r=[mk() for _ in range(nr)], score=rng.random() < 0.5,
+                       numkeys=rng.random() < 0.3)
+
+    def check_numkeys(self, case, a):
+        """int64 keys beyond 2**53 with numeric-only output attributes: every emitted key must be one of the source keys,
+        exactly (a detour through a float array rounds them)"""
+        import math
+        pd = _pd()
+        from py_stringsimjoin.utils.missing_value_handler import get_pairs_with_missing_value
+        ll, rl = (case or 'None-None').split('-')[0] == 'list', (case or 'None-None').split('-')[1] == 'list'
+        B = 2 ** 53
+        lk = [B + 1 + 2 * i for i in range(len(a['l']))]
+        rk = [B + 3 + 4 * j for j in range(len(a['r']))]
+        lt = pd.DataFrame({'id': pd.Series(lk, dtype='int64'), 'n': pd.Series([0.5 + i for i in range(len(lk))], dtype=float),
+                           'v': pd.Series(a['l'], dtype=object)})
+        rt = pd.DataFrame({'rid': pd.Series(rk, dtype='int64'), 'm': pd.Series([1.5 + j for j in range(len(rk))], dtype=float),
+                           'w': pd.Series(a['r'], dtype=object)})
+        out = get_pairs_with_missing_value(lt, rt, 'id', 'rid', 'v', 'w', ['n'] if ll else None, ['m'] if rl else None,
+                                           'l_', 'r_', a['score'], False)
+        miss = lambda v: v is None or (isinstance(v, float) and math.isnan(v))
+        want = set((lk[i], rk[j]) for i, lv in enumerate(a['l']) for j, rv in enumerate(a['r']) if miss(lv) or miss(rv))
+        got = [(row[0], row[1]) for row in out.values.tolist()] if len(out.columns) > 2 else \
+              list(zip(out['l_id'].tolist(), out['r_rid'].tolist()))
+        got = list(zip(out['l_id'].tolist(), out['r_rid'].tolist()))
+        for k in got:
+            if (int(k[0]), int(k[1])) not in want or int(k[0]) != k[0] or isinstance(k[0], float) and k[0] != float(int(k[0])):
+                return 'emitted key pair %r names no source pair with a missing value (keys %r x %r)' % (k, lk, rk)
+        if set((int(x), int(y)) for x, y in got) != want or len(got) != len(want):
+            return 'emitted key pairs %r, expected %r' % (sorted(got), sorted(want))
+        return None
 
     def check(self, case, a):
         import math
         pd = _pd()
         from py_stringsimjoin.utils.missing_value_handler import get_pairs_with_missing_value
+        if a.get('numkeys'):
+            return self.check_numkeys(case, a)
         ll, rl = (case or 'None-None').split('-')[0] == 'list', (case or 'None-None').split('-')[1] == 'list'
         lt = pd.DataFrame({'x': pd.Series(['x%d' % i for i in range(len(a['l']))], dtype=object),
                            'id': pd.Series(['l%d' % i for i in range(len(a['l']))], dtype=object),
